@@ -34,12 +34,12 @@ MC_PROPS = ['C17_Atomic', 'C03_Frame']
 
 def mc_router(pool, name=None):
     return {'kind': 'mc', 'name': name or ('router' + pool), 'module': 'MC_Router', 'subst': sub(pool),
-            'consts': {'Depth': 100, 'EmitAll': 'FALSE', 'Battery': '"last"', 'RoundTrip': 'FALSE'}, 'view': 'view',
+            'consts': {'Depth': 100, 'EmitAll': 'FALSE', 'Battery': '"last"', 'RoundTrip': 'FALSE', 'Link': 'FALSE'}, 'view': 'view',
             'invariants': MC_INV, 'properties': MC_PROPS}
 
 
-def gen_bfs(pool, depth, name=None, extra='NoExtra', props=None, limit=None, sample=None, module='MC_Router', consts=None, rt=False, urls=None, th=None):
-    c = {'Depth': depth, 'EmitAll': 'TRUE', 'Battery': '"last"', 'RoundTrip': 'TRUE' if rt else 'FALSE'}
+def gen_bfs(pool, depth, name=None, extra='NoExtra', props=None, limit=None, sample=None, module='MC_Router', consts=None, rt=False, urls=None, th=None, link=False):
+    c = {'Depth': depth, 'EmitAll': 'TRUE', 'Battery': '"last"', 'RoundTrip': 'TRUE' if rt else 'FALSE', 'Link': 'TRUE' if link else 'FALSE'}
     c.update(consts or {})
     return {'kind': 'gen', 'name': name or ('bfs%s%d' % (pool, depth)), 'module': module, 'subst': sub(pool, CaseExtra=extra, UrlProbes=(urls or 'NoUrls'), THProbes=(th or 'NoUrls')),
             'consts': c, 'trace': 'Trace_Router', 'props': props, 'limit': limit, 'sample': sample}
@@ -50,9 +50,9 @@ def gogen(mode, n, name=None, props=None, seedoff=0, fam='router', trace='Trace_
             'seedoff': seedoff, 'min_per_shard': 2}
 
 
-def gen_sim(pool, depth, num, name=None, extra='NoExtra', props=None, seedoff=0, module='MC_Router', rt=False):
+def gen_sim(pool, depth, num, name=None, extra='NoExtra', props=None, seedoff=0, module='MC_Router', rt=False, link=False):
     return {'kind': 'gen', 'name': name or ('sim%s%d' % (pool, depth)), 'module': module, 'subst': sub(pool, CaseExtra=extra),
-            'consts': {'Depth': depth, 'EmitAll': 'FALSE', 'Battery': '"every"', 'RoundTrip': 'TRUE' if rt else 'FALSE'}, 'simulate': num, 'depth': depth + 8,
+            'consts': {'Depth': depth, 'EmitAll': 'FALSE', 'Battery': '"every"', 'RoundTrip': 'TRUE' if rt else 'FALSE', 'Link': 'TRUE' if link else 'FALSE'}, 'simulate': num, 'depth': depth + 8,
             'trace': 'Trace_Router', 'props': props, 'seedoff': seedoff}
 
 
@@ -72,8 +72,8 @@ def head_stages(maxlen, sample=None):
 
 def p_c08(q):
     if q:
-        return head_stages(4) + [gen_bfs('X', 2, sample=0.12), gen_bfs('C', 1)]
-    return head_stages(5) + [mc_router('T'), gen_bfs('X', 2), gen_bfs('C', 2), gen_sim('X', 10, 60), gogen('mixed', 800)]
+        return head_stages(4) + [gen_bfs('X', 2, sample=0.12, link=True), gen_bfs('C', 1, link=True)]
+    return head_stages(5) + [mc_router('T'), gen_bfs('X', 2, link=True), gen_bfs('C', 2, link=True), gen_sim('X', 10, 60, link=True), gogen('mixed', 800)]
 
 
 RULE_CORS = ('TLC enumerates the product of CORS configuration classes (origins x allowed headers x exposed x max-age x credentials, incl. invalid ones) and, per configuration, '
